@@ -3,7 +3,7 @@ from vlib import Harness
 # one configuration per shard (see harness/c17_splay.cpp / c17_lru.cpp main): the number of shards equals the number of
 # configurations of the tier, so every configuration gets its own process (the harness also copes with fewer shards).
 SPLAY_CONFIGS = {"quick": 7, "thorough": 9}
-LRU_CONFIGS = {"quick": 2, "thorough": 2}
+LRU_CONFIGS = {"quick": 4, "thorough": 4}
 
 
 def plan(tier):
@@ -16,7 +16,7 @@ def plan(tier):
         "runs": [(lru, ["--tier", tier], LRU_CONFIGS[t]),
                  (splay, ["--tier", tier], SPLAY_CONFIGS[t])],
         "rule": "BFS closure (frontier empty) over operation histories, one closure per configuration. "
-                "LRU: LruCacheSet<int> and LruCacheMap<int,int>, keys {0..3} (thorough: set {0..5}, map {0..4}), values {0,1}; ops put, touch, "
+                "LRU: LruCacheSet<int> and LruCacheMap<int,int>, keys {0..3} (thorough: set {0..5}, map {0..4}), and the same with heap-owning std::string keys (3 keys; thorough: map 4, set 5; a moved-from key is empty, so a key read after a move or a dangling index entry is visible), values {0,1}; ops put, touch, "
                 "touch_if_exists, erase, erase_if_exists, get_touch, pop (non-empty only), clear, incl. every op on absent keys (a thrown "
                 "exception is a transition that must leave the state unchanged); states de-duplicated on the internal list_ (keys, values, "
                 "order), the map_ index (key -> list position) and its bucket count. "
